@@ -193,6 +193,23 @@ def case_seed(seed: int, case: dict) -> int:
     return int(jhash([seed, case])[:8], 16)
 
 
+class CaseTimeout(BaseException):
+    pass
+
+
+def _alarm(seconds: int):
+    import signal
+
+    if not hasattr(signal, "SIGALRM"):
+        return
+    if seconds:
+        def handler(signum, frame):
+            raise CaseTimeout()
+
+        signal.signal(signal.SIGALRM, handler)
+    signal.alarm(seconds)
+
+
 def run_cases_inproc(mod, tier: str, seed: int, cases: list, deadline: float | None = None):
     import torch
 
@@ -209,9 +226,17 @@ def run_cases_inproc(mod, tier: str, seed: int, cases: list, deadline: float | N
         # results then depend on the batch layout at the 3e-4 level); every case starts from full float32
         torch.set_float32_matmul_precision("highest")
         try:
-            mod.run_case(ctx, case)
+            _alarm(int(getattr(mod, "CASE_TIMEOUT_S", 300)))
+            try:
+                mod.run_case(ctx, case)
+            finally:
+                _alarm(0)
         except KeyboardInterrupt:
             raise
+        except CaseTimeout:
+            # a case that does not return is cut off by a generous wall-clock watchdog: inconclusive, never a violation
+            ctx.count("cases_timed_out")
+            ctx.note(f"case watchdog fired: {json.dumps(to_plain(case), default=str)[:300]}")
         except Exception as e:  # a crash of the harness/case is never silently dropped
             tb = traceback.format_exc()
             handler = getattr(mod, "on_exception", None)
@@ -295,6 +320,8 @@ def finish(mod, tier: str, seed: int, merged: dict, wall: float, workers_failed:
             inconclusive.append("replay evaluated nothing")
     if len(merged["nontrivial"]) < min_nt:
         inconclusive.append(f"only {len(merged['nontrivial'])} non-trivial cases (< {min_nt})")
+    if merged["counters"].get("cases_timed_out", 0):
+        inconclusive.append(f"{merged['counters']['cases_timed_out']} cases cut off by the per-case watchdog")
     if merged["counters"].get("cases_skipped_deadline", 0) and tier == "quick":
         # quick tier must finish its whole plan; thorough is time-boxed by design
         inconclusive.append(f"{merged['counters']['cases_skipped_deadline']} cases skipped at deadline")
